@@ -229,6 +229,10 @@ pub fn run(tier: &str) -> i32 {
     let mut djs: Vec<String> = docs.iter().step_by(4).map(|d| d.json()).collect();
     djs.push(r#"{"a":1,"order":10,"ORacle":0,"notes":1,"NOTE":2,"inner":1,"INdex":1,"whenever":1,"existsx":1,"emptyx":0,"somekey":5,"thisx":1,"keysx":1,"letter":1,"rules":1,"is_listed":1,"nullable":1,"trueish":1,"der":0,"es":0}"#.to_string());
     djs.push(r#"{"a":{"order":1},"order":0,"der":10}"#.to_string());
+    // list elements whose keys also exist at the root with other values (an explicit `this.` inside a filter is the element)
+    djs.push(r#"{"a":[{"b":1,"c":1,"a":1},{"b":2,"a":2}],"b":2,"c":3}"#.to_string());
+    djs.push(r#"{"a":[{"b":2,"a":[{"b":1}]}],"b":1}"#.to_string());
+    djs.push(r#"{"a":[{"b":[{"c":1},{"c":2}]},{"b":[{"c":2}]}],"b":[{"c":3}],"c":1}"#.to_string());
     let n = asts.len();
     let res = crate::par::run(n, rep.seed as u64, crate::par::deadline_secs(if thorough { 3000 } else { 45 }), Acc::new, |k, acc| {
         let f = &asts[k];
